@@ -241,5 +241,19 @@ class SolveGroupSwizzlerPartsel(object):
                     BinExprType.Eq,
                     ExprLiteralModel((bit_pattern >> i) & 1, False, 1)
                     ))        
+                
+        if d_width > 0 and d_width < f.width:
+            # Also steer the bits above the range's own width (zeros, or the
+            # sign bits of a negative value). Otherwise a value of the selected 
+            # range can lose to a legal value that only shares its low bits
+            width = f.width-d_width
+            e.append(ExprBinModel(
+                ExprPartselectModel(
+                    ExprFieldRefModel(f),
+                    ExprLiteralModel(f.width-1, False, 32),
+                    ExprLiteralModel(d_width, False, 32)),
+                BinExprType.Eq,
+                ExprLiteralModel((bit_pattern >> d_width) & ((1 << width)-1), False, width)
+                ))
         return e
 
